@@ -169,19 +169,25 @@ Proof.
     apply Qle_bool_iff in E. apply Qle_Rle in E. rewrite Q2R_0' in E. lra.
 Qed.
 
-Definition check_grahame (l : list (Q * Q)) (A g : Q) (ions : list (Q * Q)) (psi eps tk : Q) : bool :=
+Definition check_grahame_tol (tol : Q) (l : list (Q * Q)) (A g : Q) (ions : list (Q * Q)) (psi eps tk : Q) : bool :=
   negb (Qeq_bool (A * g) 0) &&
   check_rel_within_Q prec80 [sigmaQ l A g; psi; eps; tk] (Var 0)
-     (grahame_expr (Qpos_bool psi) (balancing_ion ions :: ions)) tol8.
+     (grahame_expr (Qpos_bool psi) (balancing_ion ions :: ions)) tol.
+Definition check_grahame := check_grahame_tol tol8.
+(* -diffuse_layer (Borkovec-Westall): the excess integrals g_z are Romberg integrals of the Poisson-Boltzmann profile of the
+   ACTUAL electrolyte, so surface charge + diffuse-layer charge = 0 is the Grahame equation up to the integration tolerance
+   (observed <= 1.2e-6 on the unchanged library); the correspondence applies it at 1e-4 as an extra relation *)
+Definition tol4 : Q := 1 # 10000.
+Definition check_grahame_loose := check_grahame_tol tol4.
 
-Theorem check_grahame_sound : forall l A g ions psi eps tk, check_grahame l A g ions psi eps tk = true ->
+Theorem check_grahame_tol_sound : forall tol l A g ions psi eps tk, check_grahame_tol tol l A g ions psi eps tk = true ->
   let gr := grahame (Q2R eps) (Q2R tk) (to_R (balancing_ion ions :: ions)) (Q2R psi) in
-  (Rabs (sigma_of_species (to_R l) (Q2R A) (Q2R g) - gr) <= / 100000000 * Rabs gr)%R.
+  (Rabs (sigma_of_species (to_R l) (Q2R A) (Q2R g) - gr) <= Q2R tol * Rabs gr)%R.
 Proof.
-  intros l A g ions psi eps tk H gr. unfold check_grahame in H. apply andb_prop in H. destruct H as [Hn H].
+  intros tol l A g ions psi eps tk H gr. unfold check_grahame_tol in H. apply andb_prop in H. destruct H as [Hn H].
   apply negb_true_iff in Hn. apply check_rel_within_Q_sound in H.
   replace (evalR (env_of_Q [sigmaQ l A g; psi; eps; tk]) (Var 0)) with (Q2R (sigmaQ l A g)) in H by reflexivity.
-  rewrite (sigmaQ_R l A g Hn), Q2R_tol8 in H.
+  rewrite (sigmaQ_R l A g Hn) in H.
   assert (E : evalR (env_of_Q [sigmaQ l A g; psi; eps; tk]) (grahame_expr (Qpos_bool psi) (balancing_ion ions :: ions)) = gr).
   { unfold grahame_expr, gr, grahame.
     change (evalR ?e (Mul ?a (Sqrt (Mul ?b ?c)))) with (evalR e a * sqrt (evalR e b * evalR e c))%R.
@@ -193,6 +199,19 @@ Proof.
       + apply Qpos_bool_spec in r. congruence.
       + replace (Q2R (-1)) with (-1)%R by (unfold Q2R; simpl; lra). reflexivity. }
   rewrite E in H. exact H.
+Qed.
+
+Theorem check_grahame_sound : forall l A g ions psi eps tk, check_grahame l A g ions psi eps tk = true ->
+  let gr := grahame (Q2R eps) (Q2R tk) (to_R (balancing_ion ions :: ions)) (Q2R psi) in
+  (Rabs (sigma_of_species (to_R l) (Q2R A) (Q2R g) - gr) <= / 100000000 * Rabs gr)%R.
+Proof. intros l A g ions psi eps tk H gr. rewrite <- Q2R_tol8. exact (check_grahame_tol_sound tol8 l A g ions psi eps tk H). Qed.
+
+Theorem check_grahame_loose_sound : forall l A g ions psi eps tk, check_grahame_loose l A g ions psi eps tk = true ->
+  let gr := grahame (Q2R eps) (Q2R tk) (to_R (balancing_ion ions :: ions)) (Q2R psi) in
+  (Rabs (sigma_of_species (to_R l) (Q2R A) (Q2R g) - gr) <= / 10000 * Rabs gr)%R.
+Proof.
+  intros l A g ions psi eps tk H gr. replace (/ 10000)%R with (Q2R tol4) by (unfold tol4, Q2R; simpl; lra).
+  exact (check_grahame_tol_sound tol4 l A g ions psi eps tk H).
 Qed.
 
 (* ---------------------------------------------------------------------------------------------- mass action *)
